@@ -102,10 +102,10 @@ type key struct {
 
 // Ctx owns a hash-cons table. Not safe for concurrent use (one per worker).
 type Ctx struct {
-	tab  map[key]*Term
-	next int
+	tab         map[key]*Term
+	next        int
 	True, False *Term
-	Owner any // back-pointer for the engine (the interpreter that owns this context)
+	Owner       any // back-pointer for the engine (the interpreter that owns this context)
 }
 
 func NewCtx() *Ctx {
@@ -619,7 +619,7 @@ type Evaluator struct {
 	memo map[int]uint64
 }
 
-func NewEvaluator(m Model) *Evaluator { return &Evaluator{M: m, memo: map[int]uint64{}} }
+func NewEvaluator(m Model) *Evaluator    { return &Evaluator{M: m, memo: map[int]uint64{}} }
 func (e *Evaluator) Eval(t *Term) uint64 { return eval(t, e.M, e.memo) }
 
 func eval(t *Term, m Model, memo map[int]uint64) uint64 {
